@@ -41,12 +41,24 @@ func (c *c03Cloud) GetClientPortMappings(id int64) ([]*models.PortMapping, error
 // c03RW: a transport with its own id and remote address
 type c03RW struct {
 	verifConn
-	id string
-	ip net.IP
+	id   string
+	ip   net.IP
+	addr net.Addr // when set: the transport reports this address instead (string-backed adapters)
 }
 
 func (c *c03RW) GetConnectionID() string { return c.id }
-func (c *c03RW) RemoteAddr() net.Addr    { return &net.TCPAddr{IP: c.ip, Port: 4000} }
+func (c *c03RW) RemoteAddr() net.Addr {
+	if c.addr != nil {
+		return c.addr
+	}
+	return &net.TCPAddr{IP: c.ip, Port: 4000}
+}
+
+// c03StrAddr is a net.Addr that only has a textual form (as the websocket adapter's)
+type c03StrAddr string
+
+func (a c03StrAddr) Network() string { return "ws" }
+func (a c03StrAddr) String() string  { return string(a) }
 
 type c03Conn struct {
 	rw     *c03RW
@@ -263,7 +275,23 @@ func Harness_C03_gates() {
 		verif_Assert("C03.gate.banned", err != nil && (resp2 == nil || !resp2.Success))
 		verif_Cover("C03.gate.banned_refused")
 	} else {
-		verif_Assert("C03.gate.blacklist_add", ipm.AddToBlacklist("10.0.0.1", time.Hour, "r", "t") == nil)
+		// the blacklist entry is the address itself or a range that contains it (also written in
+		// the IPv4-mapped IPv6 notation); the transport reports the peer as a TCP address (4- or
+		// 16-byte form) or only as text, plain or IPv4-mapped
+		entry := []string{"10.0.0.1", "10.0.0.0/8", "10.0.0.0/31", "::ffff:10.0.0.0/104", "0.0.0.0/0"}[verif_Choose(5)]
+		switch verif_Choose(4) {
+		case 1:
+			c.rw.ip = net.ParseIP("10.0.0.1").To16()
+		case 2:
+			c.rw.addr = c03StrAddr("10.0.0.1:4000")
+		case 3:
+			// an exact (non-range) entry is matched as text: the mapped spelling of an exactly
+			// listed address is outside the claim (Go listeners never report it)
+			verif_Assume(entry != "10.0.0.1")
+			c.rw.addr = c03StrAddr("[::ffff:10.0.0.1]:4000")
+			verif_Cover("C03.gate.mapped_form")
+		}
+		verif_Assert("C03.gate.blacklist_add", ipm.AddToBlacklist(entry, time.Hour, "r", "t") == nil)
 		resp2, err := w.send(c, &packet.HandshakeRequest{ClientID: 1001, ChallengeResponse: good, ConnectionType: "control"})
 		verif_Assert("C03.gate.blacklisted", err != nil && (resp2 == nil || !resp2.Success))
 		verif_Cover("C03.gate.blacklisted_refused")
